@@ -82,8 +82,8 @@ JudgeCall(e) ==
   LET src == [off |-> e.src.off, cells |-> e.src.cells, circular |-> e.src.circular] IN
   IF e.op = "compose" /\ ~ComposeDefined(src, e.fs) THEN ""   \* a feature wholly outside the sequence: outside the property's quantifier
   ELSE IF e.panic # "" THEN "panic: " \o e.panic
-  ELSE IF ~SameSeq(e.q, e.srcafter, e.src.cells) THEN "the source sequence was changed"
-  ELSE IF e.aliased THEN "the result shares storage with the source"
+  ELSE IF ~e.inplace /\ ~SameSeq(e.q, e.srcafter, e.src.cells) THEN "the source sequence was changed"
+  ELSE IF ~e.inplace /\ e.aliased THEN "the result shares storage with the source"
   ELSE CASE e.op = "truncate" ->
          LET r == Truncate(src, e.s, e.e) IN
          IF r.err # (e.err # "") THEN "error/no error"
@@ -93,11 +93,13 @@ JudgeCall(e) ==
          LET r == Stitch(src, e.fs) IN
          IF r.err # (e.err # "") THEN "error/no error"
          ELSE IF ~r.err /\ ~SameSeq(e.q, e.res.cells, r.cells) THEN "result"
+         ELSE IF ~r.err /\ ~(e.res.off = 0 /\ ~e.res.circular) THEN "result offset or conformation (a stitched sequence is linear and starts at 0)"
          ELSE ""
     [] e.op = "compose" ->
          IF ~ComposeDefined(src, e.fs) THEN ""        \* outside the property's quantifier
          ELSE IF e.err # "" THEN "error"
          ELSE IF ~SameSeq(e.q, e.res.cells, Compose(src, e.fs, e.alpha).cells) THEN "result"
+         ELSE IF ~(e.res.off = 0 /\ ~e.res.circular) THEN "result offset or conformation (a composed sequence is linear and starts at 0)"
          ELSE ""
     [] e.op = "join" ->
          \* e.src is the destination before the call, e.other the joined sequence
